@@ -1071,6 +1071,10 @@ func Gen(r *vh.Rng, wide bool) Scenario {
 
 // Main is shared by cmd/c01 and cmd/c06.
 func Main(wide bool) {
+	if len(os.Args) > 1 && os.Args[1] == "dsworker" {
+		SchedWorker()
+		return
+	}
 	mode, tier, path := vh.Args()
 	if mode == "replay" {
 		// a recorded trace: the implementation's side of every line is "ok" / its recorded value;
@@ -1081,6 +1085,8 @@ func Main(wide bool) {
 				fmt.Println(RunRx(l)) // executed on the real receive loop
 			} else if len(w) > 0 && w[0] == "dr" {
 				fmt.Println(RunOwn(l)) // executed on a real Conn: own requests next to user requests, late Write returns
+			} else if len(w) > 0 && w[0] == "ds" {
+				fmt.Println(RunSchedIsolated([]string{l})[0]) // executed on two real Conns: schedule points inside exec / releaseStream
 			} else if len(w) > 0 && w[0] == "jr" {
 				fmt.Println(RunJourney(l)) // executed on a real Conn with real callers over a scripted transport
 			} else if len(w) > 0 && w[0] == "ex" {
@@ -1151,6 +1157,24 @@ func Main(wide bool) {
 		for i, a := range RunOwnBatch(lines, 40) {
 			out.Case("reset 128", "ok", "reset", false)
 			out.Case(lines[i], a, classes[i], true)
+			nown++
+		}
+		// schedule points inside exec's exits and releaseStream, calls waiting for the write slot, close while calls are
+		// inside exec, two connections (sched.go)
+		rs := vh.NewRng(vh.EnvSeed() ^ 0x73636864)
+		ns := 600
+		if tier == "thorough" {
+			ns = 20000
+		}
+		var slines, sclasses []string
+		for i := 0; i < ns; i++ {
+			line, cls := GenSched(rs)
+			slines = append(slines, line)
+			sclasses = append(sclasses, cls)
+		}
+		for i, a := range RunSchedIsolated(slines) {
+			out.Case("reset 128", "ok", "reset", false)
+			out.Case(slines[i], a, sclasses[i], true)
 			nown++
 		}
 		if ownHung {
